@@ -811,12 +811,12 @@ theorem own_remove {s s' : State} {i : Nat} {o : Obj} (O : Own s) (hi : s.obj i 
     have : k ≠ i := by intro e; subst e; rw [hi] at h1; cases h1; exact hf h2
     exact ⟨k, ok, by rw [hobj]; simp [this, h1], h2, h3⟩
 
-theorem moveFrom_flag (oj : Obj) (t : Bool) (v : Nat) : (moveFrom oj t v).cf = oj.cf := by
+theorem moveFrom_flag (oj : Obj) (t : Bool) (v : Option Nat) : (moveFrom oj t v).cf = oj.cf := by
   unfold moveFrom; split <;> rfl
 
 /-- the move constructor: the block (if any) changes owner -/
 theorem own_move {s : State} {i j : Nat} {oj : Obj} (O : Own s) (hi : s.obj i = none) (hil : i < s.objs.length)
-    (hj : s.obj j = some oj) (t : Bool) (v : Nat) : Own (stepMove s i j t v oj) := by
+    (hj : s.obj j = some oj) (t : Bool) (v : Option Nat) : Own (stepMove s i j t v oj) := by
   have hjl := obj_lt hj
   have hij : i ≠ j := by intro e; subst e; rw [hi] at hj; cases hj
   have hobj : ∀ k, (stepMove s i j t v oj).obj k
@@ -897,7 +897,7 @@ theorem ctor_spec {s : State} (I : Inv s) {i : Nat} (hv : vacant s i = true) (o0
 
 /-! ### move construction -/
 theorem move_spec {s : State} (I : Inv s) {i j : Nat} {oj : Obj} (hv : vacant s i = true) (hj : s.obj j = some oj)
-    (t : Bool) (v : Nat) :
+    (t : Bool) (v : Option Nat) :
     Inv (stepMove s i j t v oj) ∧ handles (stepMove s i j t v oj) i = handles s j
     ∧ handles (stepMove s i j t v oj) j = []
     ∧ (∀ k, k ≠ i → k ≠ j → handles (stepMove s i j t v oj) k = handles s k)
@@ -1302,9 +1302,9 @@ theorem yield_inv {s : State} (I : Inv s) (ha : s.active = true) (me : Ptr) :
     show List.count x (s.given ++ [me]) = _ + List.count x (s.queue ++ [me]) + List.count x (resumed s) + List.count x s.popped
     cnt; omega
 
-theorem setValue_spec {s : State} (I : Inv s) (i : Nat) (v : Nat) :
-    Inv (setValue s i v) ∧ (∀ k, handles (setValue s i v) k = handles s k) ∧ Quiet s (setValue s i v) := by
-  unfold setValue
+theorem setVal_spec {s : State} (I : Inv s) (i : Nat) (v : Option Nat) :
+    Inv (setVal s i v) ∧ (∀ k, handles (setVal s i v) k = handles s k) ∧ Quiet s (setVal s i v) := by
+  unfold setVal
   cases hi : s.obj i with
   | none => exact ⟨I, fun _ => rfl, Quiet.refl s⟩
   | some o =>
@@ -1344,30 +1344,34 @@ theorem inv_step {s : State} (I : Inv s) (op : Op) : Inv (step s op).1 := by
       · exact I
   | ctorV i v =>
       simp only [step]; split
-      · have := (ctor_spec I ‹_› { typed := true, value := v } [] (by simp) rfl (by simp) (by simp)).1
+      · have := (ctor_spec I ‹_› { typed := true, value := some v } [] (by simp) rfl (by simp) (by simp)).1
         rw [state_given_nil] at this; exact this
       · exact I
   | ctorHV i h v =>
       simp only [step]; split
-      · exact (ctor_spec I ‹_› { cf := 2, inl := [h, junk, junk], typed := true, value := v } [h] (by simp) rfl
+      · exact (ctor_spec I ‹_› { cf := 2, inl := [h, junk, junk], typed := true, value := some v } [h] (by simp) rfl
           (by simp) (by simp)).1
       · exact I
   | ctorSV i j v =>
       simp only [step]; split
       · split
-        · exact (move_spec I ‹_› ‹_› true v).1
+        · exact (move_spec I ‹_› ‹_› true (some v)).1
         · exact I
       · exact I
   | mov i j =>
       simp only [step]; split
       · split
-        · exact (move_spec I ‹_› ‹_› _ _).1
+        · rename_i oj hj hv
+          have M := (move_spec I hv hj oj.typed oj.value).1
+          split
+          · exact (setVal_spec M j none).1
+          · exact M
         · exact I
       · exact I
   | movBase i j =>
       simp only [step]; split
       · split
-        · exact (move_spec I ‹_› ‹_› false 0).1
+        · exact (move_spec I ‹_› ‹_› false none).1
         · exact I
       · exact I
   | merge i j =>
@@ -1383,7 +1387,7 @@ theorem inv_step {s : State} (I : Inv s) (op : Op) : Inv (step s op).1 := by
         · split
           · exact I
           · split
-            · exact (setValue_spec (merge_spec I ‹_› ‹_› ‹_›).1 i _).1
+            · exact (setVal_spec (setVal_spec (merge_spec I ‹_› ‹_› ‹_›).1 i _).1 j none).1
             · exact (merge_spec I ‹_› ‹_› ‹_›).1
       · exact I
   | addH i h =>
@@ -1418,6 +1422,18 @@ theorem inv_step {s : State} (I : Inv s) (op : Op) : Inv (step s op).1 := by
       simp only [step]; split
       · split <;> exact I
       · exact I
+  | conv i =>
+      simp only [step]; split
+      · split <;> exact I
+      · exact I
+  | cconv i =>
+      simp only [step]; split
+      · split <;> exact I
+      · exact I
+  | ares i =>
+      simp only [step]; split
+      · split <;> exact I
+      · exact I
   | finish =>
       simp only [step]; split
       · have := inv_flushAll I s.active
@@ -1440,7 +1456,16 @@ theorem step_len {s : State} (I : Inv s) (op : Op) : (step s op).1.objs.length =
   | ctorV i v => simp only [step]; split <;> simp
   | ctorHV i h v => simp only [step]; split <;> simp
   | ctorSV i j v => simp only [step]; split <;> (try split) <;> simp [stepMove]
-  | mov i j => simp only [step]; split <;> (try split) <;> simp [stepMove]
+  | mov i j =>
+      simp only [step]; split
+      · split
+        · rename_i oj hj hv
+          have M := move_spec I hv hj oj.typed oj.value
+          split
+          · exact ((setVal_spec M.1 j none).2.2.len).trans M.2.2.2.2.len
+          · exact M.2.2.2.2.len
+        · rfl
+      · rfl
   | movBase i j => simp only [step]; split <;> (try split) <;> simp [stepMove]
   | merge i j =>
       simp only [step]; split
@@ -1456,7 +1481,8 @@ theorem step_len {s : State} (I : Inv s) (op : Op) : (step s op).1.objs.length =
           · rfl
           · have M := merge_spec I ‹s.obj i = some _› ‹s.obj j = some _› ‹_›
             split
-            · exact ((setValue_spec M.1 i _).2.2.len).trans M.2.2.2.2.1.len
+            · exact ((setVal_spec (setVal_spec M.1 i _).1 j none).2.2.len).trans
+                (((setVal_spec M.1 i _).2.2.len).trans M.2.2.2.2.1.len)
             · exact M.2.2.2.2.1.len
       · rfl
   | addH i h =>
@@ -1491,6 +1517,9 @@ theorem step_len {s : State} (I : Inv s) (op : Op) : (step s op).1.objs.length =
   | size i => simp only [step]; split <;> rfl
   | empty i => simp only [step]; split <;> rfl
   | value i => simp only [step]; split <;> (try split) <;> rfl
+  | conv i => simp only [step]; split <;> (try split) <;> rfl
+  | cconv i => simp only [step]; split <;> (try split) <;> rfl
+  | ares i => simp only [step]; split <;> (try split) <;> rfl
   | finish => simp only [step]; split <;> rfl
 
 /-! ### end of life -/
@@ -1605,18 +1634,29 @@ theorem valFrame_of_slot {s s' : State} {i : Nat} (x : Option Obj)
   · subst e; simp only [if_true] at h2; exact hx o o' h1 h2
   · simp only [e, if_false] at h2; rw [h1] at h2; cases h2; exact ⟨rfl, rfl⟩
 
+theorem obj_setVal {s : State} {i : Nat} {o : Obj} (hi : s.obj i = some o) (v : Option Nat) (k : Nat) :
+    (setVal s i v).obj k = if k = i then some { o with value := v } else s.obj k := by
+  simp only [setVal, hi]; exact obj_setObj _ i _ k (obj_lt hi)
+
+/-- what an operation does to the type / value of the objects that exist before and after: nothing, except
+the implicit member-wise move operations of `suspend_point<X>` (`mov` of a typed source, typed move-assignment) -/
 theorem step_value_frame {s : State} (I : Inv s) (op : Op) :
-    ValFrame s (step s op).1 ∨
-    ∃ i j oi oj, op = Op.assign i j ∧ s.obj i = some oi ∧ s.obj j = some oj ∧ oi.typed = true ∧ oj.typed = true
-      ∧ (∀ k, k ≠ i → ∀ o o', s.obj k = some o → (step s op).1.obj k = some o' → o'.typed = o.typed ∧ o'.value = o.value)
-      ∧ ∃ oi', (step s op).1.obj i = some oi' ∧ oi'.typed = true ∧ oi'.value = oj.value := by
+    ValFrame s (step s op).1
+    ∨ (∃ i j oj, op = Op.mov i j ∧ s.obj j = some oj ∧ oj.typed = true
+        ∧ (∀ k, k ≠ j → ∀ o o', s.obj k = some o → (step s op).1.obj k = some o' → o'.typed = o.typed ∧ o'.value = o.value)
+        ∧ ∃ oj', (step s op).1.obj j = some oj' ∧ oj'.typed = true ∧ oj'.value = none)
+    ∨ (∃ i j oi oj, op = Op.assign i j ∧ i ≠ j ∧ s.obj i = some oi ∧ s.obj j = some oj ∧ oi.typed = true ∧ oj.typed = true
+        ∧ (∀ k, k ≠ i → k ≠ j → ∀ o o', s.obj k = some o → (step s op).1.obj k = some o' →
+            o'.typed = o.typed ∧ o'.value = o.value)
+        ∧ (∃ oi', (step s op).1.obj i = some oi' ∧ oi'.typed = true ∧ oi'.value = oj.value)
+        ∧ (∃ oj', (step s op).1.obj j = some oj' ∧ oj'.typed = true ∧ oj'.value = none)) := by
   have ctor_case : ∀ (s0 : State) (i : Nat) (o0 : Obj), s0.objs = s.objs → vacant s i = true →
       ValFrame s (setObj s0 i (some o0)) := by
     intro s0 i o0 h0 hv
     obtain ⟨hil, hin⟩ := vacant_iff.1 hv
     refine valFrame_of_slot (some o0) (fun k => ?_) (fun o o' h _ => by rw [hin] at h; cases h)
     rw [obj_setObj _ i _ k (by rw [h0]; exact hil)]; simp [State.obj, h0]
-  have move_case : ∀ (i j : Nat) (oj : Obj) (t : Bool) (v : Nat), vacant s i = true → s.obj j = some oj →
+  have move_case : ∀ (i j : Nat) (oj : Obj) (t : Bool) (v : Option Nat), vacant s i = true → s.obj j = some oj →
       ValFrame s (stepMove s i j t v oj) := by
     intro i j oj t v hv hj
     obtain ⟨hil, hin⟩ := vacant_iff.1 hv
@@ -1647,19 +1687,34 @@ theorem step_value_frame {s : State} (I : Inv s) (op : Op) :
   | ctorSV i j v =>
       left; simp only [step]; split
       · split
-        · exact move_case i j _ true v ‹_› ‹_›
+        · exact move_case i j _ true (some v) ‹_› ‹_›
         · exact ValFrame.refl s
       · exact ValFrame.refl s
   | mov i j =>
-      left; simp only [step]; split
-      · split
-        · exact move_case i j _ _ _ ‹_› ‹_›
-        · exact ValFrame.refl s
-      · exact ValFrame.refl s
+      simp only [step]; split
+      · rename_i oj hj
+        split
+        · rename_i hv
+          have M := move_case i j oj oj.typed oj.value hv hj
+          obtain ⟨hil, hin⟩ := vacant_iff.1 hv
+          have hij : i ≠ j := by intro e; subst e; rw [hin] at hj; cases hj
+          have hjM : (stepMove s i j oj.typed oj.value oj).obj j = some { oj with cf := 0 } := by
+            simp only [stepMove]; rw [obj_setObj _ j _ j (by simpa using obj_lt hj)]; simp
+          split
+          · rename_i htj
+            right; left
+            refine ⟨i, j, oj, rfl, hj, htj, ?_, { oj with cf := 0, value := none }, ?_, htj, rfl⟩
+            · intro k hk o o' h1 h2
+              rw [obj_setVal hjM none k, if_neg hk] at h2
+              exact M k o o' h1 h2
+            · rw [obj_setVal hjM none j]; simp
+          · left; exact M
+        · left; exact ValFrame.refl s
+      · left; exact ValFrame.refl s
   | movBase i j =>
       left; simp only [step]; split
       · split
-        · exact move_case i j _ false 0 ‹_› ‹_›
+        · exact move_case i j _ false none ‹_› ‹_›
         · exact ValFrame.refl s
       · exact ValFrame.refl s
   | merge i j =>
@@ -1683,18 +1738,20 @@ theorem step_value_frame {s : State} (I : Inv s) (op : Op) :
                 cases h : oj.typed with
                 | true => rfl
                 | false => simp [hti, h] at hcomp
-              right
+              right; right
               have M := merge_case i j oi oj hi hj hij
-              obtain ⟨IM, -, -, -, -, ⟨oi', e1, e2, e3⟩, -, -⟩ := merge_spec I hi hj hij
-              have hil : i < (stepMerge s i j oj).objs.length := obj_lt e1
-              have hobj : ∀ k, (setValue (stepMerge s i j oj) i oj.value).obj k
-                  = if k = i then some { oi' with value := oj.value } else (stepMerge s i j oj).obj k := by
-                intro k; simp only [setValue, e1]; exact obj_setObj _ i _ k hil
-              refine ⟨i, j, oi, oj, rfl, hi, hj, hti, htj, ?_, { oi' with value := oj.value }, by rw [hobj]; simp, ?_, rfl⟩
-              · intro k hk o o' h1 h2
-                rw [hobj k, if_neg hk] at h2
+              obtain ⟨IM, -, -, -, -, ⟨oi', e1, e2, e3⟩, ej, -⟩ := merge_spec I hi hj hij
+              have hji : j ≠ i := Ne.symm hij
+              have h1j : (setVal (stepMerge s i j oj) i oj.value).obj j = some { oj with cf := 0 } := by
+                rw [obj_setVal e1 oj.value j, if_neg hji, ej]
+              refine ⟨i, j, oi, oj, rfl, hij, hi, hj, hti, htj, ?_, ⟨{ oi' with value := oj.value }, ?_, ?_, rfl⟩,
+                ⟨{ oj with cf := 0, value := none }, ?_, htj, rfl⟩⟩
+              · intro k hki hkj o o' h1 h2
+                rw [obj_setVal h1j none k, if_neg hkj, obj_setVal e1 oj.value k, if_neg hki] at h2
                 exact M k o o' h1 h2
+              · rw [obj_setVal h1j none i, if_neg hij, obj_setVal e1 oj.value i]; simp
               · show oi'.typed = true; rw [e2]; exact hti
+              · rw [obj_setVal h1j none j]; simp
             · left; exact merge_case i j oi oj hi hj hij
       · left; exact ValFrame.refl s
   | addH i h =>
@@ -1751,6 +1808,9 @@ theorem step_value_frame {s : State} (I : Inv s) (op : Op) :
   | size i => left; simp only [step]; split <;> exact ValFrame.refl s
   | empty i => left; simp only [step]; split <;> exact ValFrame.refl s
   | value i => left; simp only [step]; split <;> (try split) <;> exact ValFrame.refl s
+  | conv i => left; simp only [step]; split <;> (try split) <;> exact ValFrame.refl s
+  | cconv i => left; simp only [step]; split <;> (try split) <;> exact ValFrame.refl s
+  | ares i => left; simp only [step]; split <;> (try split) <;> exact ValFrame.refl s
   | finish => left; simp only [step]; split <;> exact valFrame_of_obj (fun _ => rfl)
 
 theorem idxOf_append_self (l : List Ptr) (x : Ptr) (h : x ∉ l) : (l ++ [x]).idxOf x = l.length := by
